@@ -105,6 +105,7 @@ PLAN = {
         "packages": ["vnative"],
         "engines": [
             {"name": "n-async", "argv": [VNATIVE, "async", "--property", "C14"]},
+            {"name": "n-place", "argv": [VNATIVE, "place", "--property", "C14", "--only-async"]},
         ],
     },
     "C12": {
